@@ -1,6 +1,7 @@
 (* C14 — Trio: the extracted tree is isomorphic to the real task tree, across thread hops.
    Property theorems only (definitions: M_TaskTree.v, specification and proofs: P_TaskTree.v). *)
 Require Import Base M_TaskTree P_TaskTree.
+From SS.gen Require Import SrcFacts.
 
 (* For ALL task trees whose frames are hop-free (plain / hidden / trap frames, nothing opening a
    nursery after the trap) and whose per-frame contexts agree with Trio's own tables
@@ -73,3 +74,24 @@ Print Assumptions C14_F14_refuted.
 Theorem C14_iso_check_sound : forall N K s, iso_b N K s = true -> iso (tlookup N) (tlookup K) s.
 Proof. exact iso_b_sound. Qed.
 Print Assumptions C14_iso_check_sound.
+
+(* what a passing case of a generated file means: the Stack observed from the real extract()
+   equals the model's result on the abstracted world, and (tc_iso) is isomorphic to Trio's tables *)
+Theorem C14_case_sound : forall k, case_ok k = true ->
+  tc_obs k = extract (tc_rc k) (tc_root k) /\
+  (tc_iso k = true -> iso (tlookup (tc_nurs k)) (tlookup (tc_kids k)) (tc_obs k)).
+Proof. exact case_ok_sound. Qed.
+Print Assumptions C14_case_sound.
+
+(* facts regenerated from /repo's source on every run (harness/facts_c14.py), on which the model's
+   reading of the code rests beyond what input/output comparison pins down: elaborate_nursery
+   builds the children with extract_child(child, for_task=True) over context.obj.child_tasks
+   after setting obj to manager._nursery; extract_child's stub rule is
+   `for_task and not recurse_child_tasks => Stack(root=stackitem, frames=[])`; the four trap
+   functions are customized hide+prune; the replace/insert decision of the to_thread glue tests
+   the name "wait_task_rescheduled". *)
+Theorem C14_source_facts :
+  SrcFacts.c14_children_for_task = true /\ SrcFacts.c14_stub_rule = true /\
+  SrcFacts.c14_traps_pruned = 4 /\ SrcFacts.c14_wait_name = true.
+Proof. exact (conj eq_refl (conj eq_refl (conj eq_refl eq_refl))). Qed.
+Print Assumptions C14_source_facts.
